@@ -1,8 +1,11 @@
+mod cc;
 mod core;
+mod gen;
 mod json;
 mod langs;
 mod props;
 mod rng;
+mod sym;
 mod tm;
 
 use crate::core::*;
@@ -15,6 +18,11 @@ fn main() {
         std::process::exit(2);
     }
     let prop = argv[1].clone();
+    if prop == "script" {
+        install_panic_hook();
+        props::script::main_script(&argv[2..]);
+        return;
+    }
     let mut params = BTreeMap::new();
     for a in &argv[2..] {
         if let Some((k, v)) = a.split_once('=') {
